@@ -17,10 +17,13 @@ PROPS = {
                      "DL.C11_daughters_count", "DL.C11_daughters_len", "DL.C11_daughters_canonical",
                      "DL.C11_daughters_string", "DL.C11_daughters_counts", "DL.C11_daughters_counts_drop",
                      "DL.C11_chain", "DL.C11_chain_reachable", "DL.chain_roundtrip",
-                     "DL.C11_parser", "DL.C11_sortItems", "DL.C11_canon_level", "DL.C11_canon_eqv", "DL.C11_canon_idem"],
-        "partial": ["C11_parser is stated for dictionaries meeting ParserChain (one line per decaying particle, repeated particles with the same "
-                    "sub-dictionary, no name both decaying and bare); that build_decay_chains produces such dictionaries for single-line "
-                    "tables is carried by the correspondence on generated files"],
+                     "DL.C11_parser", "DL.C11_sortItems", "DL.C11_canon_level", "DL.C11_canon_eqv", "DL.C11_canon_idem",
+                     "DL.C11_build_parserChain", "DL.C11_build_roundtrip"],
+        "modules": ["DL.Props.C11Build"],
+        "partial": ["C11_build_parserChain / C11_build_roundtrip: every chain the model of build_decay_chains(M, S) returns (M not in S) in which "
+                    "each decaying particle has one line meets ParserChain, so C11_parser holds for it outright (composition with the C09 "
+                    "unfolding specification and its uniqueness); that the model of build_decay_chains is the real one is C09's tie, and "
+                    "the real dictionaries are converted on every run"],
         "assumptions": ["metadata keys are not bf, fs, daughters (the constructor's own parameter names)",
                         "model_params None and '' are the same value (to_dict normalises)"],
     },
